@@ -176,7 +176,12 @@ func dumpGo19(v interface{}, t *Ty, b []byte) []byte {
 	i64 := func(b []byte, tag byte, n int64) []byte { return binary.BigEndian.AppendUint64(append(b, tag), uint64(n)) }
 	type kv struct{ k, v []byte }
 	emitMap := func(b []byte, sub byte, ps []kv) []byte {
-		sort.Slice(ps, func(i, j int) bool { return bytes.Compare(ps[i].k, ps[j].k) < 0 })
+		sort.Slice(ps, func(i, j int) bool {
+			if c := bytes.Compare(ps[i].k, ps[j].k); c != 0 {
+				return c < 0
+			}
+			return bytes.Compare(ps[i].v, ps[j].v) < 0 // equal container keys are distinct (pointer) keys of the Go map
+		})
 		b = append(b, 7, sub)
 		b = u32(b, len(ps))
 		for _, p := range ps {
@@ -297,6 +302,7 @@ func genC19Desc(r *rng, n int) {
 		for try := 0; try < 20; try++ {
 			v = g.genValue(root, 0)
 			if descOK(v) {
+				permuteStructKeys(g, v)
 				break
 			}
 			v = nil
